@@ -125,7 +125,12 @@ class SSCChart(BaseChart):
                 param = MSDParameter((key, value))
             file.write(f"{param}\n")
 
-        notes_param = MSDParameter((notes_key, self[notes_key]))
+        notes_value = self[notes_key]
+        if notes_value is None:
+            # Key-only parameter (e.g. "#NOTES;")
+            notes_param = MSDParameter((notes_key,))
+        else:
+            notes_param = MSDParameter((notes_key, notes_value))
         file.write(f"{notes_param}\n\n")
 
 
